@@ -326,7 +326,11 @@ func VH_C13_handshake_large() {
 	for i := range data {
 		data[i] = byte('a' + i%26)
 	}
-	l := vrtUint32() // the declared length of the address string
+	// the declared length of the address string: a concrete choice around the
+	// buffer size and at the extremes (a symbolic one would turn every iteration
+	// of a length-driven loop into a solver decision and hit the decision budget
+	// before the step limit)
+	l := []uint32{0, 10, 4090, 4091, 4092, 4093, 4096, 5000, 1 << 31, 0xFFFFFFFF}[vrtChoose(10)]
 	binary.BigEndian.PutUint32(data[:4], l)
 	conn := &vhConn{stream: data, cut: -1}
 	h := &Handshake{AdvertiseAddr: "keep"}
